@@ -649,17 +649,17 @@ pub fn serialize_ops(mut ops: &[Op]) -> Result<Vec<u8>> {
             Op::Save => writeln!(f, "q")?,
             Op::Restore => writeln!(f, "Q")?,
             Op::Transform { matrix } => writeln!(f, "{} cm", matrix)?,
-            Op::LineWidth { width } => writeln!(f, "{} w", width)?,
-            Op::Dash { ref pattern, phase } => writeln!(f, "[{}] {} d", pattern.iter().format(" "), phase)?,
+            Op::LineWidth { width } => writeln!(f, "{} w", Num(width))?,
+            Op::Dash { ref pattern, phase } => writeln!(f, "[{}] {} d", pattern.iter().map(|v| Num(*v)).format(" "), Num(phase))?,
             Op::LineJoin { join } => writeln!(f, "{} j", join as u8)?,
             Op::LineCap { cap } => writeln!(f, "{} J", cap as u8)?,
-            Op::MiterLimit { limit } => writeln!(f, "{} M", limit)?,
-            Op::Flatness { tolerance } => writeln!(f, "{} i", tolerance)?,
+            Op::MiterLimit { limit } => writeln!(f, "{} M", Num(limit))?,
+            Op::Flatness { tolerance } => writeln!(f, "{} i", Num(tolerance))?,
             Op::GraphicsState { ref name } => {
                 serialize_name(name, f)?;
                 writeln!(f, " gs")?;
             },
-            Op::StrokeColor { color: Color::Gray(g) } => writeln!(f, "{} G", g)?,
+            Op::StrokeColor { color: Color::Gray(g) } => writeln!(f, "{} G", Num(g))?,
             Op::StrokeColor { color: Color::Rgb(rgb) } => writeln!(f, "{} RG", rgb)?,
             Op::StrokeColor { color: Color::Cmyk(cmyk) } => writeln!(f, "{} K", cmyk)?,
             Op::StrokeColor { color: Color::Other(ref args) } =>  {
@@ -669,7 +669,7 @@ pub fn serialize_ops(mut ops: &[Op]) -> Result<Vec<u8>> {
                 }
                 writeln!(f, "SCN")?;
             }
-            Op::FillColor { color: Color::Gray(g) } => writeln!(f, "{} g", g)?,
+            Op::FillColor { color: Color::Gray(g) } => writeln!(f, "{} g", Num(g))?,
             Op::FillColor { color: Color::Rgb(rgb) } => writeln!(f, "{} rg", rgb)?,
             Op::FillColor { color: Color::Cmyk(cmyk) } => writeln!(f, "{} k", cmyk)?,
             Op::FillColor { color: Color::Other(ref args) } => {
@@ -691,7 +691,7 @@ pub fn serialize_ops(mut ops: &[Op]) -> Result<Vec<u8>> {
             Op::RenderingIntent { intent } => writeln!(f, "/{} ri", intent.to_str())?,
             Op::BeginText => writeln!(f, "BT")?,
             Op::EndText => writeln!(f, "ET")?,
-            Op::CharSpacing { char_space } => writeln!(f, "{} Tc", char_space)?,
+            Op::CharSpacing { char_space } => writeln!(f, "{} Tc", Num(char_space))?,
             Op::WordSpacing { word_space } => {
                 if let [
                     Op::CharSpacing { char_space },
@@ -699,31 +699,31 @@ pub fn serialize_ops(mut ops: &[Op]) -> Result<Vec<u8>> {
                     Op::TextDraw { ref text },
                     ..
                 ] = ops[1..] {
-                    write!(f, "{} {} ", word_space, char_space)?;
+                    write!(f, "{} {} ", Num(word_space), Num(char_space))?;
                     text.serialize(f)?;
                     writeln!(f, " \"")?;
                     advance += 3;
                 } else {
-                    writeln!(f, "{} Tw", word_space)?;
+                    writeln!(f, "{} Tw", Num(word_space))?;
                 }
             }
-            Op::TextScaling { horiz_scale } => writeln!(f, "{} Tz", horiz_scale)?,
+            Op::TextScaling { horiz_scale } => writeln!(f, "{} Tz", Num(horiz_scale))?,
             Op::Leading { leading } => match ops[1..] {
                 [Op::MoveTextPosition { translation }, ..] if leading == -translation.y => {
-                    writeln!(f, "{} {} TD", translation.x, translation.y)?;
+                    writeln!(f, "{} TD", translation)?;
                     advance += 1;
                 }
                 _ => {
-                    writeln!(f, "{} TL", leading)?;
+                    writeln!(f, "{} TL", Num(leading))?;
                 }
             }
             Op::TextFont { ref name, ref size } => {
                 serialize_name(name, f)?;
-                writeln!(f, " {} Tf", size)?;
+                writeln!(f, " {} Tf", Num(*size))?;
             },
             Op::TextRenderMode { mode } => writeln!(f, "{} Tr", mode as u8)?,
-            Op::TextRise { rise } => writeln!(f, "{} Ts", rise)?,
-            Op::MoveTextPosition { translation } => writeln!(f, "{} {} Td", translation.x, translation.y)?,
+            Op::TextRise { rise } => writeln!(f, "{} Ts", Num(rise))?,
+            Op::MoveTextPosition { translation } => writeln!(f, "{} Td", translation)?,
             Op::SetTextMatrix { matrix } => writeln!(f, "{} Tm", matrix)?,
             Op::TextNewline => {
                 if let [Op::TextDraw { ref text }, ..] = ops[1..] {
@@ -745,7 +745,7 @@ pub fn serialize_ops(mut ops: &[Op]) -> Result<Vec<u8>> {
                         write!(f, " ")?;
                     }
                     match val {
-                        TextDrawAdjusted::Spacing(s) => write!(f, "{s}")?,
+                        TextDrawAdjusted::Spacing(s) => write!(f, "{}", Num(*s))?,
                         TextDrawAdjusted::Text(data) => data.serialize(f)?,
                     }
                 }
@@ -805,6 +805,19 @@ pub enum LineJoin {
 #[cfg(feature = "euclid")]
 pub struct PdfSpace();
 
+/// An `f32` operand as written in a content stream: a whole number too large for an integer keeps a decimal
+/// point, otherwise it would be lexed as an (overflowing) integer.
+struct Num(f32);
+impl Display for Num {
+    fn fmt(&self, f: &mut fmt::Formatter) -> fmt::Result {
+        if self.0.fract() == 0.0 && self.0.abs() >= 2147483648.0 {
+            write!(f, "{}.0", self.0)
+        } else {
+            write!(f, "{}", self.0)
+        }
+    }
+}
+
 #[derive(Debug, Copy, Clone, PartialEq, Default, DataSize)]
 #[repr(C, align(8))]
 pub struct Point {
@@ -813,7 +826,7 @@ pub struct Point {
 }
 impl Display for Point {
     fn fmt(&self, f: &mut fmt::Formatter) -> fmt::Result {
-        write!(f, "{} {}", self.x, self.y)
+        write!(f, "{} {}", Num(self.x), Num(self.y))
     }
 }
 #[cfg(feature = "euclid")]
@@ -868,7 +881,7 @@ pub type Rect = ViewRect;
 
 impl Display for ViewRect {
     fn fmt(&self, f: &mut fmt::Formatter) -> fmt::Result {
-        write!(f, "{} {} {} {}", self.x, self.y, self.width, self.height)
+        write!(f, "{} {} {} {}", Num(self.x), Num(self.y), Num(self.width), Num(self.height))
     }
 }
 #[cfg(feature = "euclid")]
@@ -908,7 +921,7 @@ pub struct Matrix {
 }
 impl Display for Matrix {
     fn fmt(&self, f: &mut fmt::Formatter) -> fmt::Result {
-        write!(f, "{} {} {} {} {} {}", self.a, self.b, self.c, self.d, self.e, self.f)
+        write!(f, "{} {} {} {} {} {}", Num(self.a), Num(self.b), Num(self.c), Num(self.d), Num(self.e), Num(self.f))
     }
 }
 impl Default for Matrix {
@@ -979,7 +992,7 @@ pub struct Rgb {
 }
 impl Display for Rgb {
     fn fmt(&self, f: &mut fmt::Formatter) -> fmt::Result {
-        write!(f, "{} {} {}", self.red, self.green, self.blue)
+        write!(f, "{} {} {}", Num(self.red), Num(self.green), Num(self.blue))
     }
 }
 
@@ -992,7 +1005,7 @@ pub struct Cmyk {
 }
 impl Display for Cmyk {
     fn fmt(&self, f: &mut fmt::Formatter) -> fmt::Result {
-        write!(f, "{} {} {} {}", self.cyan, self.magenta, self.yellow, self.key)
+        write!(f, "{} {} {} {}", Num(self.cyan), Num(self.magenta), Num(self.yellow), Num(self.key))
     }
 }
 
